@@ -144,6 +144,7 @@ impl<I: Iterator> Iterator for Items<I> {
         if self.calls == self.m {
             panic!("{}", CB_PANIC);
         }
+        let _p = crate::gate::Paused::new(); // building an item is the caller's work, not the crate's
         self.it.next()
     }
     fn size_hint(&self) -> (usize, Option<usize>) {
@@ -862,9 +863,9 @@ impl Pool {
                 };
                 let s = self.ls[h].as_mut().unwrap();
                 if tr {
-                    res!(s.try_retain(pred))
+                    res!(mx(|| s.try_retain(pred)))
                 } else {
-                    s.retain(pred);
+                    mx(|| s.retain(pred));
                     Out::Ok
                 }
             }
@@ -877,16 +878,16 @@ impl Pool {
                 let exact = e.ends_with("_exact");
                 let e = e.trim_end_matches("_exact");
                 match e {
-                    "chars" => s.extend(Items { it: items.iter().map(|b| s_of(b).chars().next().unwrap()), calls: 0, m, hint, exact }),
+                    "chars" => mx(|| s.extend(Items { it: items.iter().map(|b| s_of(b).chars().next().unwrap()), calls: 0, m, hint, exact })),
                     "ref_chars" => {
                         let cs: Vec<char> = items.iter().map(|b| s_of(b).chars().next().unwrap()).collect();
-                        s.extend(Items { it: cs.iter(), calls: 0, m, hint, exact })
+                        mx(|| s.extend(Items { it: cs.iter(), calls: 0, m, hint, exact }))
                     }
-                    "str" => s.extend(Items { it: items.iter().map(|b| s_of(b)), calls: 0, m, hint, exact }),
-                    "string" => s.extend(Items { it: items.iter().map(|b| s_of(b).to_string()), calls: 0, m, hint, exact }),
-                    "box" => s.extend(Items { it: items.iter().map(|b| s_of(b).to_string().into_boxed_str()), calls: 0, m, hint, exact }),
-                    "cow" => s.extend(Items { it: items.iter().map(|b| Cow::Borrowed(s_of(b))), calls: 0, m, hint, exact }),
-                    "lean" => s.extend(Items { it: items.iter().map(|b| shim::foreign(|| LeanString::from(s_of(b)))), calls: 0, m, hint, exact }),
+                    "str" => mx(|| s.extend(Items { it: items.iter().map(|b| s_of(b)), calls: 0, m, hint, exact })),
+                    "string" => mx(|| s.extend(Items { it: items.iter().map(|b| s_of(b).to_string()), calls: 0, m, hint, exact })),
+                    "box" => mx(|| s.extend(Items { it: items.iter().map(|b| s_of(b).to_string().into_boxed_str()), calls: 0, m, hint, exact })),
+                    "cow" => mx(|| s.extend(Items { it: items.iter().map(|b| Cow::Borrowed(s_of(b))), calls: 0, m, hint, exact })),
+                    "lean" => mx(|| s.extend(Items { it: items.iter().map(|b| shim::foreign(|| LeanString::from(s_of(b)))), calls: 0, m, hint, exact })),
                     other => panic!("harness: unknown extend variant {other}"),
                 }
                 Out::Ok
@@ -899,26 +900,26 @@ impl Pool {
                 let exact = e.ends_with("_exact");
                 let e = e.trim_end_matches("_exact");
                 let v: LeanString = match e {
-                    "chars" => Items { it: items.iter().map(|b| s_of(b).chars().next().unwrap()), calls: 0, m, hint, exact }.collect(),
+                    "chars" => mx(|| Items { it: items.iter().map(|b| s_of(b).chars().next().unwrap()), calls: 0, m, hint, exact }.collect()),
                     "ref_chars" => {
                         let cs: Vec<char> = items.iter().map(|b| s_of(b).chars().next().unwrap()).collect();
-                        Items { it: cs.iter(), calls: 0, m, hint, exact }.collect()
+                        mx(|| Items { it: cs.iter(), calls: 0, m, hint, exact }.collect())
                     }
-                    "str" => Items { it: items.iter().map(|b| s_of(b)), calls: 0, m, hint, exact }.collect(),
-                    "string" => Items { it: items.iter().map(|b| s_of(b).to_string()), calls: 0, m, hint, exact }.collect(),
-                    "box" => Items { it: items.iter().map(|b| s_of(b).to_string().into_boxed_str()), calls: 0, m, hint, exact }.collect(),
-                    "cow" => Items { it: items.iter().map(|b| Cow::Borrowed(s_of(b))), calls: 0, m, hint, exact }.collect(),
-                    "lean" => Items { it: items.iter().map(|b| shim::foreign(|| LeanString::from(s_of(b)))), calls: 0, m, hint, exact }.collect(),
+                    "str" => mx(|| Items { it: items.iter().map(|b| s_of(b)), calls: 0, m, hint, exact }.collect()),
+                    "string" => mx(|| Items { it: items.iter().map(|b| s_of(b).to_string()), calls: 0, m, hint, exact }.collect()),
+                    "box" => mx(|| Items { it: items.iter().map(|b| s_of(b).to_string().into_boxed_str()), calls: 0, m, hint, exact }.collect()),
+                    "cow" => mx(|| Items { it: items.iter().map(|b| Cow::Borrowed(s_of(b))), calls: 0, m, hint, exact }.collect()),
+                    "lean" => mx(|| Items { it: items.iter().map(|b| shim::foreign(|| LeanString::from(s_of(b)))), calls: 0, m, hint, exact }.collect()),
                     other => panic!("harness: unknown collect variant {other}"),
                 };
                 self.ls[h] = Some(v);
                 Out::Ok
             }
             "from_utf8_lossy" => {
-                self.ls[h] = Some(LeanString::from_utf8_lossy(&op.s));
+                self.ls[h] = Some(mx(|| LeanString::from_utf8_lossy(&op.s)));
                 Out::Ok
             }
-            "from_utf16" => match LeanString::from_utf16(&units_of(&op.x)) {
+            "from_utf16" => match { let u = units_of(&op.x); mx(|| LeanString::from_utf16(&u)) } {
                 Ok(s) => {
                     self.ls[h] = Some(s);
                     Out::Ok
@@ -926,7 +927,7 @@ impl Pool {
                 Err(_) => Out::ErrUtf16,
             },
             "from_utf16_lossy" => {
-                self.ls[h] = Some(LeanString::from_utf16_lossy(&units_of(&op.x)));
+                self.ls[h] = Some({ let u = units_of(&op.x); mx(|| LeanString::from_utf16_lossy(&u)) });
                 Out::Ok
             }
             "compare" => {
@@ -939,7 +940,7 @@ impl Pool {
                 let items = items_of(&op.x);
                 let p = Pieces { pieces: &items, fail_at: op.n, panic_at: op.m, calls: Default::default() };
                 if tr {
-                    match p.try_to_lean_string() {
+                    match mx(|| p.try_to_lean_string()) {
                         Ok(v) => {
                             self.ls[h] = Some(v);
                             Out::Ok
@@ -948,7 +949,7 @@ impl Pool {
                         Err(lean_string::ToLeanStringError::Fmt(_)) => Out::ErrFmt,
                     }
                 } else {
-                    self.ls[h] = Some(p.to_lean_string());
+                    self.ls[h] = Some(mx(|| p.to_lean_string()));
                     Out::Ok
                 }
             }
